@@ -2,6 +2,7 @@ import EudoxiaModel.Model.Profile
 import EudoxiaModel.Model.Pool
 import EudoxiaModel.Proofs.Profile
 import EudoxiaModel.Proofs.SpecRun
+import EudoxiaModel.Proofs.OpIndex
 /-! # C05 — container execution follows the documented time and memory model
 
 The documented model is the specification `specRun` (Model/Profile.lean), which does not mention the tick generator;
@@ -253,6 +254,83 @@ theorem specification_summary_is_what_the_container_does (cfg : Cfg) (w : Store)
         rw [hcr]; simpa using hstop
       obtain ⟨d1, _, d3, d4, _, d6⟩ := oom_at_first_excess cfg _ w c cons w1 c1 cons1 w' c' cons' hf hc hp hsegc (by omega) (hfit _ (Nat.le_refl _)) hex h1 h
       exact ⟨d1, d3, d4, by rw [d6, hel]; omega⟩
+
+/-- **the operators the specification counts as completed are the ones the container has completed when it ends.**  Along the run the container's
+operator index (`_current_op_idx`, the number of its operators that are done — what the pool reads to decide which operators a failure or a
+suspension leaves unfinished) is always the operator of the next documented demand (`run_keeps_idxOK`); so when the run ends — after `S.endTick`
+ticks, by success or by the out-of-memory stop — it equals `S.completedOps`: all operators after a success, otherwise the index of the operator whose
+demand did not fit. -/
+theorem specification_completed_operators_is_the_containers_operator_index (cfg : Cfg) (w : Store) (cid : Nat) (a : Asg)
+    (hseg : ∀ r ∈ a.ops, w.segsOf r ≠ []) :
+    let c := mkCtr w cid a
+    let S := specRun cfg a.cpu a.ram (a.ops.map (fun r => w.segsOf r))
+    ∀ cons w' c' cons', runN cfg S.endTick w c cons = .ok (w', c', cons') →
+      c'.curOpIdx = S.completedOps ∧ (S.ok = true → S.completedOps = a.ops.length) ∧ (S.ok = false → S.completedOps < a.ops.length) := by
+  intro c S cons w' c' cons' h
+  obtain ⟨hf, hc, hp, _, _, hram, hD⟩ := new_container_has_the_documented_demands cfg w cid a
+  have hsegc : ∀ o ∈ c.pos.ops, o.2 ≠ [] := by
+    intro o ho
+    simp only [c, mkCtr, mkPos, List.mem_map] at ho
+    obtain ⟨r, hr, rfl⟩ := ho
+    exact hseg r hr
+  have hD' : (remL cfg c).map (fun x => ((a.ops.map (fun r => w.segsOf r)).length - 1 - x.1, x.2)) =
+      ctrDemands cfg (a.ops.map (fun r => w.segsOf r)) (specTicks cfg a.cpu (a.ops.map (fun r => w.segsOf r))) := hD
+  obtain ⟨s1, s2, _, _⟩ := specRunWith_summary cfg a.ram (a.ops.map (fun r => w.segsOf r)) (specTicks cfg a.cpu (a.ops.map (fun r => w.segsOf r)))
+    (remL cfg c) hD'
+  obtain ⟨t1, t2⟩ := specRunWith_completedOps cfg a.ram (a.ops.map (fun r => w.segsOf r)) (specTicks cfg a.cpu (a.ops.map (fun r => w.segsOf r)))
+    (remL cfg c) hD'
+  simp only [List.length_map] at t1 t2
+  have hcr : c.ram = a.ram := hram
+  have hkle := takeWhile_length_le (fun x : Nat × Nat => decide (x.2 ≤ a.ram)) (remL cfg c)
+  have hfit : ∀ n, n ≤ ((remL cfg c).takeWhile (fun x => decide (x.2 ≤ a.ram))).length → ∀ x ∈ (remL cfg c).take n, x.2 ≤ c.ram := by
+    intro n hn x hx
+    have := takeWhile_all (fun x : Nat × Nat => decide (x.2 ≤ a.ram)) (remL cfg c) n hn x hx
+    rw [hcr]; simpa using this
+  have hi0 : IdxOK cfg a.ops.length c := idxOK_new cfg w cid a hseg
+  by_cases hall : ((remL cfg c).takeWhile (fun x => decide (x.2 ≤ a.ram))).length = (remL cfg c).length
+  · have hok : S.ok = true := s1.mpr hall
+    have hend : S.endTick = (remL cfg c).length := by
+      change (specRunWith _ _ _ _).endTick = _
+      rw [s2, if_pos hall]
+    have hco : S.completedOps = a.ops.length := t1 hall
+    rw [hend] at h
+    have hi := run_keeps_idxOK cfg a.ops.length _ w c cons w' c' cons' hf hc hp hsegc (Nat.le_refl _) (hfit _ (by omega)) hi0 h
+    obtain ⟨r1, _⟩ := run_follows_demands cfg _ w c cons w' c' cons' hf hc hp hsegc (Nat.le_refl _) (hfit _ (by omega)) h
+    refine ⟨?_, fun _ => hco, fun hno => by rw [hok] at hno; cases hno⟩
+    rw [hco]
+    exact hi.2.1 (by rw [r1]; simp)
+  · have hok : S.ok = false := by
+      cases hs : S.ok with
+      | false => rfl
+      | true => exact absurd (s1.mp hs) hall
+    have hend : S.endTick = ((remL cfg c).takeWhile (fun x => decide (x.2 ≤ a.ram))).length + 1 := by
+      change (specRunWith _ _ _ _).endTick = _
+      rw [s2, if_neg hall]
+    have hlt : ((remL cfg c).takeWhile (fun x => decide (x.2 ≤ a.ram))).length < (remL cfg c).length := by omega
+    have hco : S.completedOps = a.ops.length - 1 - ((remL cfg c).getD ((remL cfg c).takeWhile (fun x => decide (x.2 ≤ a.ram))).length (0, 0)).1 := t2 hlt
+    rw [hend, runN_snoc] at h
+    split at h
+    · cases h
+    · rename_i w1 c1 cons1 h1
+      have hstop := takeWhile_stop (fun x : Nat × Nat => decide (x.2 ≤ a.ram)) (0, 0) (remL cfg c) hlt
+      have hex : c.ram < ((remL cfg c).getD ((remL cfg c).takeWhile (fun x => decide (x.2 ≤ a.ram))).length (0, 0)).2 := by
+        rw [hcr]; simpa using hstop
+      obtain ⟨_, _, _, _, d5, _⟩ := oom_at_first_excess cfg _ w c cons w1 c1 cons1 w' c' cons' hf hc hp hsegc hlt (hfit _ (Nat.le_refl _)) hex h1 h
+      have hi := run_keeps_idxOK cfg a.ops.length _ w c cons w1 c1 cons1 hf hc hp hsegc (by omega) (hfit _ (Nat.le_refl _)) hi0 h1
+      obtain ⟨r1, _⟩ := run_follows_demands cfg _ w c cons w1 c1 cons1 hf hc hp hsegc (by omega) (hfit _ (Nat.le_refl _)) h1
+      -- the next demand after the fitting prefix
+      obtain ⟨k, m, tl, hdrop⟩ : ∃ k m tl, (remL cfg c).drop ((remL cfg c).takeWhile (fun x => decide (x.2 ≤ a.ram))).length = (k, m) :: tl := by
+        cases hd : (remL cfg c).drop ((remL cfg c).takeWhile (fun x => decide (x.2 ≤ a.ram))).length with
+        | nil =>
+          have := congrArg List.length hd
+          simp only [List.length_drop, List.length_nil] at this
+          omega
+        | cons x tl => exact ⟨x.1, x.2, tl, rfl⟩
+      have hk := hi.2.2 k m tl (by rw [r1]; exact hdrop)
+      have hget : ((remL cfg c).getD ((remL cfg c).takeWhile (fun x => decide (x.2 ≤ a.ram))).length (0, 0)).1 = k := by
+        rw [List.getD_eq_getElem?_getD, ← List.head?_drop, hdrop]; rfl
+      rw [hget] at hco
+      refine ⟨by rw [d5, hco]; omega, fun hyes => (by rw [hok] at hyes; cases hyes), fun _ => by rw [hco]; omega⟩
 
 /-- the specification on a small example: two operators (3 I/O ticks growing by g, then 2 CPU ticks at the amount read; then fixed memory),
     success after the summed tick count -/
